@@ -21,7 +21,7 @@ import tempfile
 import numpy as np
 
 from .. import tlc
-from ..common import pmap, MachineryError, bootstrap, rng_for
+from ..common import pmap, MachineryError, bootstrap, rng_for, reseed_global
 
 LEVEL = "model_checking"
 IMAG = False
@@ -101,6 +101,91 @@ def _ps_conservation(args):
                     break
         except Exception as e:
             out["viol"].append((f"C09:ps1-conservation-raises:{type(e).__name__}", f"{type(e).__name__}: {e}", detail))
+    return out
+
+
+def _spectra_cases(args):
+    """clients of real-time evolution: zero-temperature correlation-function jobs (one-way / two-way propagation).
+    The sequence of Mps.evolve calls (which of bra / ket, sign of the step) is recorded and compared with the CorrJob
+    schedule; every recorded autocorrelation value is compared with <phi| exp(-i H t_k) |phi> from dense algebra."""
+    bootstrap()
+    from scipy.linalg import expm
+    from renormalizer.model import HolsteinModel, Mol, Phonon
+    from renormalizer.mps import Mps, Mpo
+    from renormalizer.spectra import SpectraOneWayPropZeroT, SpectraTwoWayPropZeroT
+    from renormalizer.utils import Quantity, EvolveConfig, EvolveMethod, CompressConfig, CompressCriteria, OptimizeConfig
+    from .. import concretize as cz, states as st
+    seed, k, moves = args
+    out = {"cases": [], "viol": [], "traces": 0, "meas": []}
+    rng = rng_for(seed, "c09spectra", k)
+    mols = []
+    for m in range(2):
+        phs = [Phonon.simple_phonon(Quantity(float(rng.uniform(0.6, 1.4))), Quantity(float(rng.uniform(-0.8, 0.8))), 3)]
+        mols.append(Mol(Quantity(float(rng.uniform(-0.3, 0.3))), phs, dipole=float(rng.uniform(0.5, 1.5)) * (-1 if m and k % 2 else 1)))
+    model = HolsteinModel(mols, Quantity(float(rng.uniform(0.1, 0.5))), scheme=2 if k % 2 == 0 else 3)
+    offset = float(rng.uniform(-0.5, 0.5))
+    H = np.asarray(cz.mpo_dense(Mpo(model, offset=Quantity(offset))))
+    dims = [b.nbas for b in model.basis]
+    # dipole operators assembled here: sum_i d_i a^+_i
+    D = np.zeros((int(np.prod(dims)),) * 2)
+    for i, b in enumerate(model.basis):
+        if b.is_electron:
+            mats = [np.eye(d) for d in dims]
+            mats[i] = np.array([[0.0, 0.0], [1.0, 0.0]])
+            full = np.eye(1)
+            for mm in mats:
+                full = np.kron(full, mm)
+            D += model.dipole[b.dof] * full
+    for cls_, way in ((SpectraOneWayPropZeroT, "one"), (SpectraTwoWayPropZeroT, "two")):
+        for stype in ("abs", "emi"):
+            for meth in (EvolveMethod.prop_and_compress_tdrk4, EvolveMethod.tdvp_ps2):
+                detail = {"job": cls_.__name__, "type": stype, "method": meth.name, "holstein_scheme": model.scheme, "k": k}
+                out["cases"].append(json.dumps(detail))
+                try:
+                    nsteps, dt = 5, 0.08
+                    reseed_global(seed, "c09spectra-run", k, way, stype, meth.name)
+                    # the library CALLS its compress_config argument (spectra/base.py), so a factory is passed
+                    job = cls_(model, stype, optimize_config=OptimizeConfig(procedure=[[16, 0.4], [16, 0.2], [16, 0], [16, 0]]),
+                               evolve_config=EvolveConfig(meth), compress_config=lambda: CompressConfig(CompressCriteria.fixed, max_bonddim=32),
+                               offset=Quantity(offset))
+                    rec = []
+                    o_ev = Mps.evolve
+
+                    def ev(self_, mpo, evolve_dt, *a, **kw):
+                        pair = job.latest_mps
+                        who = "bra" if self_ is pair.bra_mps else ("ket" if self_ is pair.ket_mps else "other")
+                        rec.append([who, "+" if np.real(evolve_dt) > 0 else "-"])
+                        return o_ev(self_, mpo, evolve_dt, *a, **kw)
+                    Mps.evolve = ev
+                    try:
+                        job.evolve(dt, nsteps)
+                    finally:
+                        Mps.evolve = o_ev
+                    out["traces"] += 1
+                    if rec != [list(m_) for m_ in moves[way]]:
+                        out["viol"].append((f"C09:corrjob:schedule:{way}", f"recorded propagation calls {rec} differ from the CorrJob schedule {moves[way]}", detail))
+                    # dense reference
+                    nex = 0 if stype == "abs" else 1
+                    mask = st.sector_projector(model.basis, nex)
+                    w, v = np.linalg.eigh(H[np.ix_(mask, mask)])
+                    g = np.zeros(H.shape[0], dtype=complex)
+                    g[mask] = v[:, 0]
+                    phi = (D if stype == "abs" else D.T) @ g
+                    ref = np.array([phi.conj() @ expm(-1j * H * (dt * j)) @ phi for j in range(nsteps + 1)])
+                    got = np.asarray(job.autocorr)
+                    if got.shape != ref.shape:
+                        out["viol"].append(("C09:corrjob:length", f"{len(got)} correlation values for {nsteps} steps", detail))
+                        continue
+                    if not np.allclose(job.evolve_times, [dt * j for j in range(nsteps + 1)]):
+                        out["viol"].append(("C09:corrjob:times", f"evolve_times {job.evolve_times}", detail))
+                    err = float(np.abs(got - ref).max() / np.abs(ref[0]))
+                    out["meas"].append({"way": way, "type": stype, "method": meth.name, "err": err})
+                    if err > 3e-5:
+                        out["viol"].append((f"C09:corrjob:value:{way}:{stype}", f"autocorrelation differs from <phi|exp(-iHt)|phi> by {err:.2e} (relative to C(0))", detail))
+                except Exception as e:
+                    import traceback
+                    tb = traceback.format_exc(limit=4).splitlines()
+                    out["viol"].append((f"C09:corrjob:raises:{type(e).__name__}", f"{type(e).__name__}: {e} | {' | '.join(x.strip() for x in tb[-4:-1])}", detail))
     return out
 
 
@@ -296,6 +381,27 @@ def run(ctx, imag=False):
                 ctx.violation(key, what, detail)
     _judge_adaptive(ctx, pid, atraces, cases)
     _judge_ps_schedule(ctx, pid, ptraces, cases)
+    if not imag:
+        moves = {}
+        for way in ("one", "two"):
+            cfg = tlc.make_cfg(constants=dict(NSteps=5, Way=f'"{way}"'), spec="Spec", invariants=["LagIsTime", "Balanced", "OneWay", "Emit"], properties=["Terminates"])
+            r = tlc.run("CorrJob", cfg, mode="emit", vacuity=True, timeout=600)
+            ctx.add_tlc(r, f"CorrJob {way}-way propagation")
+            if r["violated"]:
+                ctx.violation(f"C09:spec:CorrJob:{r['violated']}", "CorrJob violates " + str(r["violated"]), {"tlc": (r.get("error_text") or "")[:1500]})
+            moves[way] = r["emitted"][0]["moves"]
+        res = pmap(_spectra_cases, [(ctx.seed, k, moves) for k in range(2 if tier == "quick" else 8)], chunksize=1)
+        worst = 0.0
+        for st_, o in res:
+            if st_ != "ok":
+                raise MachineryError("spectra worker failed: " + o)
+            for c in o["cases"]:
+                ctx.case(fingerprint=c, nontrivial=True)
+            for key, what, detail in o["viol"]:
+                ctx.violation(key, what, detail)
+            ctx.traces(o["traces"])
+            worst = max([worst] + [m["err"] for m in o["meas"]])
+        ctx.notes["corrjob_max_relative_error"] = worst
     ctx.sample(cases[len(cases) // 2])
     ctx.sample(cases[0])
     ctx.cov["rule"] = ("(configuration, call history) pairs enumerated by TLC from EvolveSpace (quick: one per configuration class; thorough: all, wide tableau/gauge sets, "
